@@ -82,9 +82,10 @@ def functional : List ((Int × Int) × Int) := [
   ((25, 126), KeyF13), ((26, 126), KeyF14), ((28, 126), KeyF15), ((29, 126), KeyF16),
   ((31, 126), KeyF17), ((32, 126), KeyF18), ((33, 126), KeyF19), ((34, 126), KeyF20)]
 
-/-- SS3 finals (xterm application cursor keys / PF keys). -/
+/-- SS3 finals (xterm application cursor keys — Up Down Right Left, Begin (`SS3 E`, xterm's `curfinal` table; terminfo
+    `kb2=\EOE`), End, Home — and the PF keys). -/
 def ss3Table : List (Int × Int) := [
-  (65, KeyUp), (66, KeyDown), (67, KeyRight), (68, KeyLeft), (70, KeyEnd), (72, KeyHome),
+  (65, KeyUp), (66, KeyDown), (67, KeyRight), (68, KeyLeft), (69, KeyKeyPadBegin), (70, KeyEnd), (72, KeyHome),
   (80, KeyF01), (81, KeyF02), (82, KeyF03), (83, KeyF04)]
 
 /-! ## Chords and the kitty report -/
